@@ -1,2 +1,3 @@
 import Generated.Kernels
+import Generated.NTTables
 import Generated.UtilCanon
